@@ -801,7 +801,7 @@ def main():
             taint = st['taint']
             if J['verdict'] == 'violation':
                 for key, what in J['V']:
-                    viols.append((key, what, hist, res))
+                    viols.append((key, what, hist, res, None))
                 if J['taintable'] and all(k in KNOWN_KEYS for k, _ in J['V']):
                     taint = sorted(set(taint) | set(J['taintable']))
                     n_tainted_cont += 1
@@ -820,7 +820,7 @@ def main():
                 ob = {k: v for k, v in b['o'].items() if k not in taint}
                 if not (oa == ob and a['p']['cmdline'] == b['p']['cmdline'] and a['p']['augments'] == b['p']['augments']):
                     viols.append(('C08:differential:' + cmd['kind'],
-                                  'histories %r and %r reach the same model state but differ observably: %r / %r' % (h0, hist, a, b), hist, res))
+                                  'histories %r and %r reach the same model state but differ observably: %r / %r' % (h0, hist, a, b), hist, res, h0))
                     continue
             else:
                 by_model[(mk, tk)] = (hist, rk)
@@ -846,14 +846,14 @@ def main():
         if per_key[v[0]] <= 2 and not v[0].startswith('C08:differential'):
             to_confirm.append(v)
     confirmations = list(pmap(history_worker, [v[2] for v in to_confirm] * 2, jobs=jobs, init=worker_init)) if to_confirm else []
-    for i, (key, what, hist, res) in enumerate(to_confirm):
+    for i, (key, what, hist, res, other) in enumerate(to_confirm):
         for steps, verdict, keys, rk in (confirmations[i], confirmations[i + len(to_confirm)]):
             if steps != len(hist) or key not in keys:
                 ck.internal('violation %s of history %r did not reproduce from scratch (%s %r after %d steps): nondeterminism'
                             % (key, hist, verdict, keys, steps))
-    for key, what, hist, res in viols:
+    for key, what, hist, res, other in viols:
         ck.violation(key, '%s  [history: %s]' % (what, ' ; '.join(hist)),
-                     {'history': hist, 'expect_key': key,
+                     {'history': hist, 'expect_key': key, 'other_history': other,
                       'observed': {'rc': res['rc'], 'persisted': res['pobs'], 'get_option': res['obs']['msgs'], 'tail': res['tail'][-400:]}})
 
     # ---- cold slice: the fork runner is faithful (same keys from fresh `python meson.py` processes) ---------------
@@ -917,6 +917,18 @@ def replay(ck):
         rp = json.load(f)
     hist = rp['history']
     want = rp.get('expect_key') or rp.get('key')
+    if rp.get('other_history') is not None:
+        # differential oracle: two histories with the same model state must be observationally equal
+        oa, ob = run_history(rp['other_history']), run_history(hist)
+        (na, Ja, ra), (nb, Jb, rb) = oa[-1], ob[-1]
+        same_model = Ja.get('m2') == Jb.get('m2')
+        pa = (ra['obs']['msgs'], ra['pobs']['cmdline'], ra['pobs']['augments'])
+        pb = (rb['obs']['msgs'], rb['pobs']['cmdline'], rb['pobs']['augments'])
+        print('history A :', ' ; '.join(rp['other_history']), '\n  observed:', pa)
+        print('history B :', ' ; '.join(hist), '\n  observed:', pb)
+        print('same model state: %s; observationally equal: %s' % (same_model, pa == pb))
+        sys.stdout.flush()
+        hard_exit(1 if same_model and pa != pb else 0)
     o = run_history(hist)
     for n, J, res in o:
         print('  %-44s rc=%s -> %s %s' % (n, res['rc'], J['verdict'], [k for k, _ in J.get('V', [])] or ''))
